@@ -157,7 +157,7 @@ def make_options(o, mode, extra=None):
         if mode[1] is not None:
             kw["max_errors"] = mode[1]
     if o.get("addition", "unset") != "unset":
-        kw["addition"] = _plain(o["addition"]["t"]) if isinstance(o["addition"], dict) else o["addition"]
+        kw["addition"] = addition_type(o["addition"]) if isinstance(o["addition"], dict) else o["addition"]
     for k in ("invalid_items", "invalid_keys", "invalid_values"):
         if o.get(k):
             kw[k] = o[k]
@@ -168,7 +168,18 @@ def make_options(o, mode, extra=None):
     return Options(**kw)
 
 
-def build_callable(api, decl, options_obj):
+_addty_cache: dict = {}
+
+
+def addition_type(desc):
+    """the type object of a typed addition / **kwargs annotation (one object per descriptor)"""
+    k = json.dumps(desc, sort_keys=True)
+    if k not in _addty_cache:
+        _addty_cache[k] = build_type(desc)
+    return _addty_cache[k]
+
+
+def build_callable(api, decl, options_obj, var=None, kwty=None):
     """returns parse(data, runtime_options) for the declaration"""
     import utype
     from utype import Schema
@@ -182,28 +193,46 @@ def build_callable(api, decl, options_obj):
             ns["__options__"] = options_obj
         cls = type("S", (Schema,), ns)
 
-        def call(data, ropts):
+        def call(data, ropts, args=()):
             inst = cls.__from__(dict(data), options=ropts) if ropts is not None else cls(**dict(data))
             return dict(inst)
         return call, cls
-    # keyword function
+    # function: positional-or-keyword params first, then *args / *, keyword-only params, **kwargs
     g = {"utype": utype}
-    params = []
+    pos, kwonly = [], []
     for i, f in enumerate(decl):
         g[f"T{i}"] = build_type(f["ty"]) if f.get("ty") is not None else None
         g[f"F{i}"] = build_field(f)
         ann = f": T{i}" if f.get("ty") is not None else ""
-        params.append(f"{f['name']}{ann} = F{i}")
-    kw = ", **kw" if api == "funckw" else ""
-    names = ", ".join(f"{f['name']}={f['name']}" for f in decl)
-    src = f"def fn(*{', ' if params else ''}{', '.join(params)}{kw}):\n    return dict({names}{', **kw' if kw else ''})\n"
-    if not params:
-        src = f"def fn({'**kw' if kw else ''}):\n    return dict({'**kw' if kw else ''})\n"
-    exec(src, g)
+        (pos if f.get("pos") else kwonly).append(f"{f['name']}{ann} = F{i}")
+    params = list(pos)
+    if var is not None:
+        if var.get("ty") is not None:
+            g["TV"] = build_type(var["ty"])
+            params.append("*args: TV")
+        else:
+            params.append("*args")
+    elif kwonly:
+        params.append("*")
+    params += kwonly
+    if api == "funckw":
+        if kwty is not None:
+            g["TK"] = addition_type(kwty)
+            params.append("**kw: TK")
+        else:
+            params.append("**kw")
+    names = [f"{f['name']}={f['name']}" for f in decl]
+    if var is not None:
+        names.append("__args=list(args)")
+    if api == "funckw":
+        names.append("**kw")
+    src = f"def fn({', '.join(params)}):\n    return dict({', '.join(names)})\n"
+    # dont_inherit: this module's `from __future__ import annotations` must not turn the annotations into strings
+    exec(compile(src, "<c10-generated>", "exec", dont_inherit=True), g)
     fn = utype.parse(g["fn"], options=options_obj) if options_obj is not None else utype.parse(g["fn"])
 
-    def call(data, ropts):
-        return fn(**dict(data))
+    def call(data, ropts, args=()):
+        return fn(*args, **dict(data))
     return call, fn
 
 
@@ -223,6 +252,8 @@ def outcome(thunk):
 
 def _item(e):
     it = getattr(e, "item", None)
+    if isinstance(it, str) and it.startswith("**") and ":" in it:
+        it = it.split(":", 1)[1]           # FunctionParser names an additional key `**kwargs:key` (func.py:608)
     return it if it is None or isinstance(it, str) else str(it)
 
 
@@ -305,10 +336,11 @@ class Closure:
     """every plain-class conversion the model can ask for on this case: a type-directed walk; the values that
     reach a sub-type are the real results of the sub-types before it (measured fail-fast)"""
 
-    def __init__(self, o):
+    def __init__(self, o, opt_add=None):
         self.conv = {}
         self.exact = {}
         self.o = o
+        self.opt_add = opt_add          # resolved type of a typed `addition` option (converts the rest of a tuple)
         self.memo = {}
 
     def real(self, T, S, F):
@@ -365,6 +397,13 @@ class Closure:
                         if i < len(xs):
                             el[vkey(xs[i])] = xs[i]
                     self.need(a, el, F)
+                if self.opt_add is not None:
+                    rest = {}
+                    for v in vals:
+                        xs = (v.get("l") or v.get("t") or []) if isinstance(v, dict) else []
+                        for x in xs[len(r["args"]):]:
+                            rest[vkey(x)] = x
+                    self.need(self.opt_add, rest, F)
             elif kind == "map":
                 ks, vs = {}, {}
                 for v in vals:
@@ -409,24 +448,24 @@ def _cached(key, make):
     return _cls_cache[key]
 
 
-def get_decl(api, decl, o, optmode, mode):
+def get_decl(api, decl, o, optmode, mode, var=None, kwty=None):
     """(status, (call, object), runtime options) for the declaration in the given mode"""
     if optmode == "class":
-        key = json.dumps([api, decl, o, mode], sort_keys=True)
-        st, v = _cached(key, lambda: build_callable(api, decl, make_options(o, mode)))
+        key = json.dumps([api, decl, o, mode, var, kwty], sort_keys=True)
+        st, v = _cached(key, lambda: build_callable(api, decl, make_options(o, mode), var, kwty))
         return st, v, None
-    key = json.dumps([api, decl], sort_keys=True)
-    st, v = _cached(key, lambda: build_callable(api, decl, None))
+    key = json.dumps([api, decl, var, kwty], sort_keys=True)
+    st, v = _cached(key, lambda: build_callable(api, decl, None, var, kwty))
     return st, v, make_options(o, mode)
 
 
-def run_decl(api, decl, o, optmode, mode, data):
-    """one parse of `data` against the declaration with the given mode"""
-    st, v, ropts = get_decl(api, decl, o, optmode, mode)
+def run_decl(api, decl, o, optmode, mode, data, args=(), var=None, kwty=None):
+    """one parse of `data` (and positional `args`) against the declaration with the given mode"""
+    st, v, ropts = get_decl(api, decl, o, optmode, mode, var, kwty)
     if st != "ok":
         return {"config_error": v}
     call = v[0]
-    return outcome(lambda: call(data, ropts))
+    return outcome(lambda: call(data, ropts, args))
 
 
 def impl(case):
@@ -435,49 +474,88 @@ def impl(case):
     if case.get("kind") == "ctx":
         return impl_ctx(case)
     api, decl, o, data = case["api"], case["decl"], case["opts"], case["data"]
+    args_j, var, kwty = case.get("args") or [], case.get("var"), case.get("kwty")
     optmode = case.get("optmode", "runtime")
     if api != "schema":
         optmode = "class"
     pdata = [(k, dec(v)) for k, v in data]
-    if api == "func" and o.get("addition", "unset") is True:
+    pargs = tuple(dec(v) for v in args_j)
+    if api == "func" and o.get("addition", "unset") not in ("unset", False):
         return {"config_error": "function without **kwargs cannot keep additions"}
-    runs = [run_decl(api, decl, o, optmode, m, pdata) for m in MODES]
+    runs = [run_decl(api, decl, o, optmode, m, pdata, pargs, var, kwty) for m in MODES]
     if any("config_error" in r for r in runs):
         return {"config_error": [r.get("config_error") for r in runs if "config_error" in r][0]}
     # ground truth: every top-level item on its own, fail-fast
-    items = list(dict.fromkeys([f["name"] for f in decl] + [k for k, _ in data]))
+    posnames = [f["name"] for f in decl if f.get("pos")]
+    given = posnames[:len(pargs)]
     alone = []
-    for it in items:
-        d1 = [f for f in decl if f["name"] == it]
-        r = run_decl(api, d1, o, optmode, MODES[0], [(k, v) for k, v in pdata if k == it])
+    for j, v in enumerate(pargs):
+        if j < len(posnames):
+            # the parameter it is bound to, given alone (by keyword)
+            d1 = [dict(f, pos=False) for f in decl if f["name"] == posnames[j]]
+            r = run_decl(api, d1, o, optmode, MODES[0], [(posnames[j], v)], (), None, kwty)
+            alone.append([posnames[j], "ok" not in r])
+        elif var is not None:
+            r = run_decl(api, [], o, optmode, MODES[0], [], (v,), var, kwty)
+            alone.append([f"*args:{j}", "ok" not in r])
+    for it in dict.fromkeys([f["name"] for f in decl if f["name"] not in given] + [k for k, _ in data]):
+        d1 = [dict(f, pos=False) for f in decl if f["name"] == it and it not in given]
+        r = run_decl(api, d1, o, optmode, MODES[0], [(k, v) for k, v in pdata if k == it], (), None, kwty)
         alone.append([it, "ok" not in r])
     out = {"runs": runs, "alone": alone}
     # the tree the model runs on + the conversions it may ask for
     try:
-        st, v, _ = get_decl(api, decl, o, optmode, MODES[0])
+        st, v, _ = get_decl(api, decl, o, optmode, MODES[0], var, kwty)
         obj = v[1]
-        fields = obj.__parser__.fields
-        if isinstance(o.get("addition"), dict):
-            raise Unmodelled("typed addition")
+        parser = obj.__parser__
+        fields = parser.fields
         cons_table: list = []
         rdecl = []
-        cl = Closure(dict(o, addition=True) if api == "funckw" else o)
+        # effective `addition` of the context (runtime options included) and the parser's declared addition type
+        eff = dict(o)
+        if api == "funckw":
+            eff["addition"] = kwty if kwty is not None else True     # FunctionParser (func.py:242-247)
+        opt_add = resolve(addition_type(eff["addition"]), cons_table) if isinstance(eff.get("addition"), dict) else None
+        add_ty = resolve(parser.addition_type, cons_table) if parser.addition_type is not None else None
+        cl = Closure(eff, opt_add)
         base_flags = {(False, False)}
         byname = {f["name"]: f for f in decl}
         if sorted(fields) != sorted(byname):
             raise Unmodelled("declared fields differ from the parser's")
-        for fname in fields:          # the parser's own field order (annotated attributes first)
+        order = list(fields)          # the parser's own field order (annotated attributes first)
+        if [n for n in order if byname[n].get("pos")] != order[:len(posnames)] or \
+                [n for n in order if byname[n].get("pos")] != posnames:
+            raise Unmodelled("positional parameters are not the first fields")
+        for fname in order:
             f = byname[fname]
             pf = fields[f["name"]]
             if pf.name != f["name"] or list(pf.all_aliases) != [f["name"]] or pf.dependencies or pf.discriminator_map:
                 raise Unmodelled("field aliases/dependencies")
+            if getattr(pf, "positional_only", False):
+                raise Unmodelled("positional-only parameter")
             ty = resolve(pf.type, cons_table) if pf.type is not None else None
             rdecl.append({"name": f["name"], "ty": strip(ty), "required": bool(pf.is_required(make_options(o, MODES[0]))),
                           **({"default": f["default"]} if "default" in f else {}), "on_error": f.get("on_error")})
             if ty is not None:
                 S = {vkey(v): v for k, v in data if k == f["name"]}
+                if f["name"] in given:
+                    a = args_j[posnames.index(f["name"])]
+                    S[vkey(a)] = a
                 cl.need(ty, S, base_flags)
+        if add_ty is not None:
+            extra = {vkey(v): v for k, v in data if k not in byname or k in given}
+            cl.need(add_ty, extra, base_flags)
+        if var is not None:
+            pos_ty = resolve(parser.position_type, cons_table) if parser.position_type is not None else None
+            if pos_ty is not None:
+                cl.need(pos_ty, {vkey(v): v for v in args_j[len(posnames):]}, base_flags)
+            out["call"] = {"npos": len(posnames), "hasVar": True, "posTy": strip(pos_ty), "args": args_j}
+        elif posnames or args_j:
+            out["call"] = {"npos": len(posnames), "hasVar": False, "posTy": None, "args": args_j}
         out["resolved"] = rdecl
+        out["ropts"] = {"addition": {"typed": strip(opt_add)} if opt_add is not None else
+                        (None if eff.get("addition", "unset") == "unset" else eff["addition"]),
+                        "addTy": strip(add_ty)}
         out["tables"] = {"conv": list(cl.conv.values()), "exact": list(cl.exact.values()), "constraints": cons_table}
     except Unmodelled as e:
         out["unmodelled"] = str(e)
@@ -719,12 +797,17 @@ def gen_case(rng, api=None):
                 f["default"] = gen_val(rng, f["ty"], good=True)
         decl.append(f)
     o = {"addition": rng.choice(["unset", "unset", False, False, True]), "dfs": rng.choice([None, False, True, True])}
-    if api == "schema" and rng.random() < 0.04:
-        o["addition"] = {"t": rng.choice(["int", "str"])}
+    addty = None
+    if api == "schema" and rng.random() < 0.14:
+        addty = gen_addty(rng)
+        o["addition"] = addty          # typed additional keys: plain class or constrained Rule
     if api == "func" and o["addition"] is True:
         o["addition"] = False
+    kwty = None
     if api == "funckw":
         o["addition"] = "unset"
+        if rng.random() < 0.35:
+            kwty = addty = gen_addty(rng)      # **kw: T
     for k in ("invalid_items", "invalid_keys", "invalid_values"):
         if rng.random() < 0.15:
             o[k] = rng.choice(POLICIES)
@@ -741,9 +824,62 @@ def gen_case(rng, api=None):
             continue
         ty = f["ty"] or {"t": "int"}
         data.append([f["name"], gen_val(rng, ty, good=i not in bad)])
-    for k in rng.sample(EXTRA, k=rng.choice([0, 0, 1, 1, 2, 3])):
-        data.insert(rng.randrange(len(data) + 1), [k, enc(rng.choice(INTS + STRS))])
-    return {"kind": "parse", "api": api, "optmode": rng.choice(["runtime", "class"]), "decl": decl, "opts": o, "data": data}
+    nextra = rng.choice([0, 0, 1, 1, 2, 3]) if addty is None else rng.choice([1, 2, 3, 3])
+    for k in rng.sample(EXTRA, k=nextra):
+        v = enc(rng.choice(INTS + STRS)) if addty is None else gen_val(rng, addty, good=rng.random() < 0.5)
+        data.insert(rng.randrange(len(data) + 1), [k, v])
+    case = {"kind": "parse", "api": api, "optmode": rng.choice(["runtime", "class"]), "decl": decl, "opts": o, "data": data}
+    if kwty is not None:
+        case["kwty"] = kwty
+    if api != "schema" and rng.random() < 0.55:
+        make_positional(rng, case)
+    return case
+
+
+def gen_addty(rng):
+    r = rng.random()
+    if r < 0.3:
+        return {"t": rng.choice(["int", "str", "float"])}
+    if r < 0.75:
+        lo = rng.choice([0, 1, 5])
+        return {"rule": "int", "cons": {"ge": lo, "le": lo + rng.choice([2, 5, 100])}}
+    if r < 0.9:
+        return {"rule": "str", "cons": {"min_length": 1, "max_length": rng.choice([2, 3])}}
+    return {"list": {"rule": "int", "cons": {"ge": 0}}}
+
+
+def make_positional(rng, case):
+    """turn a keyword call into one that gives the first parameters by position (and maybe *args)"""
+    decl, data = case["decl"], dict(map(tuple, case["data"]))
+    # positional parameters come first; the exclude policy would silently shift the later arguments (C08/C11's subject)
+    npos = rng.randint(1, len(decl))
+    for i, f in enumerate(decl):
+        f["pos"] = i < npos
+        if f.get("on_error") == "exclude":
+            f["on_error"] = "preserve"
+    if case["opts"].get("invalid_values") == "exclude":
+        case["opts"]["invalid_values"] = "throw"
+    # the parser keeps annotated parameters first: untyped positional ones would be reordered
+    for f in decl[:npos]:
+        if f["ty"] is None:
+            f["ty"] = {"t": "int"}
+    given = 0
+    for f in decl[:npos]:
+        if f["name"] in data and rng.random() < 0.8:
+            given += 1
+        else:
+            break
+    args = [data.pop(f["name"]) for f in decl[:given]]
+    if rng.random() < 0.45:
+        case["var"] = {"ty": rng.choice([None, {"t": "int"}, {"rule": "int", "cons": {"ge": 0}},
+                                         {"rule": "str", "cons": {"max_length": 2}}])}
+        if given == npos:
+            vt = case["var"]["ty"] or {"t": "int"}
+            args += [gen_val(rng, vt, good=rng.random() < 0.6) for _ in range(rng.choice([0, 1, 2, 3]))]
+    elif given == npos and rng.random() < 0.1:
+        args.append(enc(7))           # an excess positional argument (ignored by parse_params)
+    case["args"] = args
+    case["data"] = [[k, v] for k, v in case["data"] if k in data]
 
 
 def gen_ctx_case(rng):
@@ -800,10 +936,9 @@ def exhaustive_cases():
 # the check
 # ----------------------------------------------------------------------------------------------
 
-def norm_opts(o, api="schema"):
-    # a function with **kwargs gets addition=True from FunctionParser (func.py:242-247)
-    add = True if api == "funckw" else None if o.get("addition", "unset") == "unset" else o["addition"]
-    return {"ndl": False, "nec": False, "addition": add,
+def norm_opts(o, ropts):
+    """the model's options: the case's, with the effective `addition` / declared addition type measured by the adapter"""
+    return {"ndl": False, "nec": False, "addition": ropts["addition"], "addTy": ropts["addTy"],
             "invalid_items": o.get("invalid_items"), "invalid_keys": o.get("invalid_keys"),
             "invalid_values": o.get("invalid_values"), "dfs": bool(o.get("dfs"))}
 
@@ -817,8 +952,9 @@ class C10(Check):
     props_modules = ["Utv.Props.C10"]
     driver = "C10"
     impl = "harness.c10:impl"
-    rule = ("random declarations (Schema classes through __from__/class options, keyword functions with and without "
-            "**kwargs; 1-4 fields; field types of depth<=3 over int/str/float/bool with bound/length constraints, "
+    rule = ("random declarations (Schema classes through __from__/class options, functions called by keyword and by "
+            "position incl. *args: T, with and without **kwargs / **kwargs: T; typed `addition` (plain class or "
+            "constrained Rule) with the invalid_values policies; 1-4 fields; field types of depth<=3 over int/str/float/bool with bound/length constraints, "
             "List/Tuple/Dict/Optional and the combinators & | ^ ~; required/default/on_error; addition None/False/True; "
             "invalid_* policies; both lookup strategies) x inputs with any subset of fields invalid/missing + excess "
             "keys, each run fail-fast and collecting with max_errors in {None,1,2,3} and every item parsed alone; "
@@ -826,7 +962,8 @@ class C10(Check):
             "passed under a policy; distinct by (declaration, options, input)")
     assumptions = ["plain-class conversions and type(v)==cls are measured on the real code per case and handed to the "
                    "model as tables; the theorems hold for every such table (World)",
-                   "fragment: no aliases/dependencies/no_input/discriminator/max_params; constraints gt/ge/lt/le on int "
+                   "fragment: no aliases/dependencies/no_input/discriminator/max_params/positional-only or excluded (_x) "
+                   "parameters; no parameter given both by position and by keyword; constraints gt/ge/lt/le on int "
                    "and length constraints (the validators are abstract in the theorems)"]
     budget = {"quick": 1800, "thorough": 30000}
     search_budget = {"quick": 2500, "thorough": 25000}
@@ -865,6 +1002,9 @@ class C10(Check):
                 "rejected_inputs": sum(1 for _, io, _ in parse if "runs" in io and "ok" not in io["runs"][0]),
                 "accepted_inputs": sum(1 for _, io, _ in parse if "runs" in io and "ok" in io["runs"][0]),
                 "runs_on_real_code": sum(len(io["runs"]) + len(io["alone"]) for _, io, _ in parse if "runs" in io),
+                "calls_with_positional_args": sum(1 for c, io, _ in parse if c.get("args") and "runs" in io),
+                "calls_with_var_positional": sum(1 for c, io, _ in parse if c.get("var") and "runs" in io),
+                "typed_addition": sum(1 for c, io, _ in parse if (isinstance(c["opts"].get("addition"), dict) or c.get("kwty")) and "runs" in io),
             }
             self._samples = [{"case": c, "implementation": {k: v for k, v in io.items() if k != "tables"}, "model": mo}
                              for c, io, mo in parse if "resolved" in io and failing_items(io)][5:7]
@@ -876,9 +1016,12 @@ class C10(Check):
         if not isinstance(io, dict) or "resolved" not in io:
             return None
         t = io["tables"]
-        return {"decl": io["resolved"], "opts": norm_opts(case["opts"], case["api"]), "data": case["data"], "modes": MODES,
+        line = {"decl": io["resolved"], "opts": norm_opts(case["opts"], io["ropts"]), "data": case["data"], "modes": MODES,
                 "conv": t["conv"], "exact": t["exact"], "constraints": t["constraints"],
                 "legacy": bool(case.get("legacy")), "items": [i for i, _ in io["alone"]]}
+        if "call" in io:
+            line["call"] = io["call"]
+        return line
 
     def compare(self, case, io, mo):
         if case.get("kind") == "ctx":
@@ -903,13 +1046,26 @@ class C10(Check):
                     return f"mode {mode}: impl escapes {a['escape']} but model accepts"
                 continue
             if "ok" in a or "ok" in b:
-                if "ok" not in a or "ok" not in b or a["ok"] != canon_map(b["ok"]):
+                if "ok" not in a or "ok" not in b or a["ok"] != canon_map(self.bound(io, b["ok"])):
                     return f"mode {mode}: impl={a} model={b}"
             elif a != b:
                 return f"mode {mode}: impl={a} model={b}"
         if io["alone"] != m["alone"]:
             return f"items failing alone: impl={io['alone']} model={m['alone']}"
         return None
+
+    @staticmethod
+    def bound(io, ok):
+        """the model's result as the mapping the function body sees: positional values under their parameter names"""
+        if not isinstance(ok, dict):
+            return ok
+        call = io["call"]
+        names = [f["name"] for f in io["resolved"]][:call["npos"]]
+        g = min(len(call["args"]), call["npos"])
+        out = [[names[j], ok["args"][j]] for j in range(min(g, len(ok["args"])))]
+        if call["hasVar"]:
+            out.append(["__args", {"l": ok["args"][g:]}])
+        return out + ok["kw"]
 
     def spec(self, case, io, mo):
         """the property, evaluated on what the implementation returned"""
@@ -976,7 +1132,9 @@ class C10(Check):
         combs = "".join(op for op in "&|^~" if f'"comb": "{op}"' in s)
         tag = "unmodelled/" if "unmodelled" in io else ""
         strat = "DF" if case["opts"].get("dfs") else "FF"
-        return f"{tag}{case['api']}/{strat}/failing={min(nfail, 3)}/comb={combs or '-'}"
+        shape = ("+pos" if case.get("args") else "") + ("+*args" if case.get("var") else "") + \
+                ("+typed-add" if isinstance(case["opts"].get("addition"), dict) or case.get("kwty") else "")
+        return f"{tag}{case['api']}{shape}/{strat}/failing={min(nfail, 3)}/comb={'y' if combs else '-'}"
 
     def neighbours(self, case, rng):
         if case.get("kind") != "parse":
